@@ -405,6 +405,9 @@ def run_check(prop, tier, seed, nshards):
             if pool and len(samples) < 5:
                 samples.append(pool.pop(0))
 
+    if not samples:
+        samples = [v["case"] for v in violations.values()][:3]
+        evaluations = max(evaluations, sum(v["count"] for v in violations.values()))
     replay_paths = []
     shutil.rmtree(os.path.join(VERIF, "evidence", "replays", prop), ignore_errors=True)
     for index, (key, entry) in enumerate(sorted(violations.items())):
